@@ -27,6 +27,8 @@
  Rv verbose       : blocks guarded by the verbose flag only report; the design does not depend on the logging flag.
  Re for-each      : loops that act on every item are never left early (break / return).
  Rn arg roles     : a variable named like a parameter of the callee is handed to that parameter (no exchanged roles).
+ R9 fibre lists   : split_fiber and add_inline_amplifier are applied to every fibre class (truth table), and only to fibres.
+ Rz sentinel      : fields defaulted when None are None when absent from the input (loader .get without another default).
 """
 import ast
 
@@ -512,6 +514,47 @@ def rn_arg_roles(ctx):
     ctx.check('Rn.arg-roles', 'argument / parameter name scan', True, 'C08|arg-roles-scan', '', f'{n} argument(s) named like another parameter judged')
 
 
+def r9_fibre_lists(ctx):
+    """R9: the auto-design visits EVERY fibre: the element lists it splits and follows with in-line amplifiers are selected by an
+    isinstance test that is true for Fiber and its subclasses (Raman fibres) and for nothing else (truth table over the element
+    classes)"""
+    from ..typedomain import truth_table
+    repo = ctx.repo
+    f = repo.func(NW, 'add_missing_elements_in_network')
+    el = repo.module('gnpy.core.elements')
+    dom = [el.classes[n] for n in ('Fiber', 'RamanFiber', 'Fused', 'Edfa', 'Multiband_amplifier', 'Roadm', 'Transceiver')]
+    n = 0
+    for callee in ('split_fiber', 'add_inline_amplifier'):
+        cs = calls_to(f, {callee})
+        lp = enclosing(cs[0], ast.For) if len(cs) == 1 else None
+        ok = lp is not None and isinstance(lp.iter, ast.Name)
+        det = ''
+        if ok:
+            # the definition of the list that reaches this loop (the closest one above it)
+            ds = [x for x in f.node.body if isinstance(x, ast.Assign) and ast.unparse(x.targets[0]) == lp.iter.id and x.lineno < lp.lineno]
+            comp = ds[-1].value if ds else None
+            ok = isinstance(comp, ast.ListComp) and len(comp.generators) == 1 and len(comp.generators[0].ifs) == 1 and \
+                ast.unparse(comp.generators[0].iter) == f'{f.params[0]}.nodes()' and ast.unparse(comp.elt) == ast.unparse(comp.generators[0].target)
+            if ok:
+                tt = truth_table(repo, f.module, comp.generators[0].ifs[0], [comp.generators[0].target.id], dom)
+                wrong = sorted(k[0] for k, v in tt.items() if v != (k[0] in ('Fiber', 'RamanFiber')))
+                ok = not wrong
+                det = f'wrong for {wrong}' if wrong else ''
+        n += 1
+        ctx.check('R9.fibre-lists', f'{site(f, lp) if lp is not None else site(f)} {callee}', ok, key(f, f'fibres|{callee}'),
+                  f'{callee} is not applied to every fibre of the network (Raman fibres included) and only to fibres: some spans would '
+                  'stay unsplit / without in-line amplifier', det)
+    ctx.need('R9.fibre-lists', 2)
+
+
+def rs_sentinel(ctx):
+    """Rz: a field that the design fills with a configured default when it is None (connector losses ...) is None when the input does
+    not give it: its loader uses .get('<field>') without another default"""
+    from ..presence import sentinel_rule
+    sentinel_rule(ctx, 'Rz.sentinel', 'a fibre without the entry would never receive the configured Span default')
+    ctx.need('Rz.sentinel', 2)
+
+
 from ..memo import rule_for as _memo_rule
 
 RULES_MEMO = ('Rm.memo', _memo_rule('C08', 'a structural decision taken for another element would be reused'))
@@ -522,4 +565,4 @@ from ..presence import rule_for as _presence_rule
 RULES_PRESENCE = ('Rp.presence', _presence_rule('C08', 'a legal zero would be read as missing'))
 
 RULES = [('R1.surgery', r1_surgery), ('R2.edge-weight', r2_weights), ('R3.completeness', r3_completeness), ('R4.split', r4_split),
-         ('R5.order', r5_order), ('R6.every-oms', r6_every_oms), RULES_MEMO, RULES_PRESENCE, ('R7.span-walk', r7_span_walk), ('Ru.units', ru_units), ('Rv.verbose-pure', rv_verbose), ('Re.for-each', re_foreach), ('Rn.arg-roles', rn_arg_roles)]
+         ('R5.order', r5_order), ('R6.every-oms', r6_every_oms), RULES_MEMO, RULES_PRESENCE, ('R7.span-walk', r7_span_walk), ('Ru.units', ru_units), ('Rv.verbose-pure', rv_verbose), ('Re.for-each', re_foreach), ('Rn.arg-roles', rn_arg_roles), ('R9.fibre-lists', r9_fibre_lists), ('Rz.sentinel', rs_sentinel)]
